@@ -36,3 +36,21 @@ package skchia
 // and OnStart makes a fresh channel)
 //@ func (*SpaceKeeper).OnStop
 //@   requires started-and-not-yet-stopped: sk != nil && sk.quit != nil && !closed[sk.quit]
+
+// the bulk actions hold no keeper lock while they apply the single-space action to each selected space (the
+// single-space actions take the state lock themselves)
+//@ func (*SpaceKeeper).PlotMultiWS
+//@   requires lock-entry: skUnlocked(sk)
+//@   loop * invariant no-lock-held-between-actions: skUnlocked(sk)
+//@ func (*SpaceKeeper).MineMultiWS
+//@   requires lock-entry: skUnlocked(sk)
+//@   loop * invariant no-lock-held-between-actions: skUnlocked(sk)
+//@ func (*SpaceKeeper).StopMultiWS
+//@   requires lock-entry: skUnlocked(sk)
+//@   loop * invariant no-lock-held-between-actions: skUnlocked(sk)
+//@ func (*SpaceKeeper).RemoveMultiWS
+//@   requires lock-entry: skUnlocked(sk)
+//@   loop * invariant no-lock-held-between-actions: skUnlocked(sk)
+//@ func (*SpaceKeeper).DeleteMultiWS
+//@   requires lock-entry: skUnlocked(sk)
+//@   loop * invariant no-lock-held-between-actions: skUnlocked(sk)
